@@ -89,7 +89,7 @@ func safeString(f func() string) (s string, perr string) {
 var badGroupLabel = map[string]bool{"without": true, "inf": true, "nan": true}
 
 // shapeOf names the known-finding shape an accepted expression falls into ("" = none).
-func shapeOf(e parser.Expr) string {
+func shapeOf(e parser.Expr, o parser.Options) string {
 	shape := ""
 	set := func(s string) {
 		if shape == "" {
@@ -118,15 +118,63 @@ func shapeOf(e parser.Expr) string {
 			set("at-timestamp-float-precision")
 		}
 	}
+	// A unary plus in front of an offset duration is not printed:
+	//  - `offset +(5)` (rule unary_op "(" duration_expr ")", not gated) prints as `offset (5)`: rejected when
+	//    ExperimentalDurationExpr is off, and with the flag on a following arithmetic operator is absorbed into
+	//    the duration (`foo offset +(1m) + bar` -> `foo offset (1m) + bar`);
+	//  - `offset +step()` / `+range()` / `+min_of(..)` builds DurationExpr{ADD, RHS}, printed without the plus and
+	//    re-parsed as the bare RHS (same text, different AST).
+	offx := func(d *parser.DurationExpr, beforeOp bool) {
+		if d == nil {
+			return
+		}
+		if d.Wrapped && (!o.ExperimentalDurationExpr || beforeOp) {
+			set("offset-unary-plus-paren-dropped")
+		}
+		if !d.Wrapped && d.Op == parser.ADD && d.LHS == nil {
+			set("offset-unary-plus-ast-differs")
+		}
+	}
+	var rightmost func(e parser.Expr) *parser.VectorSelector
+	rightmost = func(e parser.Expr) *parser.VectorSelector {
+		switch x := e.(type) {
+		case *parser.VectorSelector:
+			return x
+		case *parser.BinaryExpr:
+			return rightmost(x.RHS)
+		case *parser.UnaryExpr:
+			return rightmost(x.Expr)
+		}
+		return nil
+	}
+	// U+FFFD is printed as is by strconv.Quote and then taken for an invalid rune by the lexer
+	fffd := func(ss ...string) {
+		for _, s := range ss {
+			if strings.Contains(s, "\uFFFD") {
+				set("string-replacement-char-rejected")
+			}
+		}
+	}
 	parser.Inspect(e, func(n parser.Node, _ []parser.Node) error {
 		switch x := n.(type) {
+		case *parser.StringLiteral:
+			fffd(x.Val)
 		case *parser.AggregateExpr:
+			fffd(x.Grouping...)
 			labelsBad(x.Grouping)
 		case *parser.BinaryExpr:
+			switch x.Op {
+			case parser.ADD, parser.SUB, parser.MUL, parser.DIV, parser.MOD, parser.POW:
+				if vs := rightmost(x.LHS); vs != nil {
+					offx(vs.OriginalOffsetExpr, true)
+				}
+			}
 			if nl, ok := x.LHS.(*parser.NumberLiteral); ok && x.Op == parser.POW && !nl.Duration && math.IsInf(nl.Val, 1) {
 				set("inf-literal-power-lhs")
 			}
 			if m := x.VectorMatching; m != nil {
+				fffd(m.MatchingLabels...)
+				fffd(m.Include...)
 				labelsBad(m.MatchingLabels)
 				labelsBad(m.Include)
 				if l, r := m.FillValues.LHS, m.FillValues.RHS; l != nil && r != nil && *l == 0 && *r == 0 && math.Signbit(*l) != math.Signbit(*r) {
@@ -134,11 +182,18 @@ func shapeOf(e parser.Expr) string {
 				}
 			}
 		case *parser.VectorSelector:
+			offx(x.OriginalOffsetExpr, false)
+			for _, m := range x.LabelMatchers {
+				if m != nil {
+					fffd(m.Name, m.Value)
+				}
+			}
 			subMs(x.OriginalOffset)
 			tsBad(x.Timestamp)
 		case *parser.MatrixSelector:
 			subMs(x.Range)
 		case *parser.SubqueryExpr:
+			offx(x.OriginalOffsetExpr, false)
 			subMs(x.Range)
 			subMs(x.Step)
 			subMs(x.OriginalOffset)
@@ -247,7 +302,7 @@ func main() {
 		} else {
 			d.Re = "error: " + rerr.Error()
 		}
-		shape := shapeOf(e)
+		shape := shapeOf(e, o)
 		d.Shape = shape
 		if shape == "" {
 			d.Shape = "ok"
@@ -375,10 +430,26 @@ func main() {
 		`foo @ 4503599627599627370.495`, `foo @ -9223372036854776.000`, // int64 ms overflow in setTimestamp (stable round trip)
 		`a + fill_left(0) fill_right(-0) b`,
 		`Inf ^ f`, `+Inf^f`, `-Inf ^ 2`, `foo * Inf ^ 2`,
+		"\"a\\ufffdb\"", "foo{a=\"\\xef\\xbf\\xbd\"}", "sum by (\"x\\ufffd\") (foo)",
 	}
 	all := parser.Options{EnableExperimentalFunctions: true, EnableExtendedRangeSelectors: true, EnableBinopFillModifiers: true}
 	for _, s := range findings {
 		runText(s, all, "corpus-finding")
+	}
+	// `offset +( .. )` without the duration-expression flag
+	for _, s := range []string{`foo offset +(5)`, `foo offset +(5m)`, `foo[5m] offset +(5m)`, `foo[5m:] offset +(1)`, `foo offset -(5m)`} {
+		runText(s, parser.Options{}, "corpus-finding")
+	}
+	for _, s := range []string{`foo offset +(1m) + bar`, `foo @ 10 offset +(range()) * 2`, `foo offset +range()`, `foo[5m] offset +step()`, `foo[5m:] offset +min_of(1m, 2m)`} {
+		runText(s, parser.Options{ExperimentalDurationExpr: true}, "corpus-finding")
+	}
+	// duration expressions in every position, flag on (and off: must be rejected or round-trip)
+	for _, s := range durExprCorpus() {
+		runText(s, parser.Options{ExperimentalDurationExpr: true, EnableExperimentalFunctions: true, EnableExtendedRangeSelectors: true, EnableBinopFillModifiers: true}, "corpus-durexpr")
+		if f.Tier != "quick" {
+			runText(s, parser.Options{ExperimentalDurationExpr: true}, "corpus-durexpr")
+		}
+		runText(s, parser.Options{}, "corpus-durexpr")
 	}
 	for _, s := range textCorpus {
 		for i := 0; i < 16; i++ {
@@ -390,7 +461,7 @@ func main() {
 	}
 
 	// 2. generated ASTs
-	n := f.Count(350, 12000)
+	n := f.Count(300, 12000)
 	var printed []string
 	for i := 0; i < n; i++ {
 		r := gen.Fork(f.Seed, i)
@@ -405,8 +476,19 @@ func main() {
 		}
 	}
 
+	// 2b. generated duration-expression queries (Go-side round trip: outside the Coq model)
+	nd := f.Count(300, 20000)
+	for i := 0; i < nd; i++ {
+		r := gen.Fork(f.Seed, 2000000+i)
+		o := optsOf(8 + r.Intn(8))
+		if r.Chance(1, 6) {
+			o = optsOf(r.Intn(8))
+		}
+		runText(durExprQuery(r), o, "generated-durexpr")
+	}
+
 	// 3. totality: mutated corpus / printed texts and random token soups
-	m := f.Count(1500, 48000)
+	m := f.Count(1200, 48000)
 	for i := 0; i < m; i++ {
 		r := gen.Fork(f.Seed, 1000000+i)
 		o := optsOf(r.Intn(16))
